@@ -219,6 +219,11 @@ Matchers ==
         <<"and", <<"not", <<"empty">>>>, <<"or", <<"numlines", "==", 1>>, <<"matches", FALSE, Re(FALSE, <<<<"b", "1">>>>, FALSE)>>>>>>,
         <<"or", <<"empty">>, <<"every", <<"cempty">>>>>>,
         <<"on", <<"seq", <<"strip">>, <<"stripnl">>>>, <<"equals", <<CA>>>>>> >>
+  \* the output of every transformer of the strip family read LINE BY LINE (an output that is empty has no line)
+  \o [j \in 1..9 |->
+        LET tr == <<<<"strip">>, <<"stripts">>, <<"stripnl">>>>[((j - 1) \div 3) + 1]
+            m  == << <<"numlines", "==", 0>>, <<"numlines", "==", 1>>, <<"any", <<"lconst", TRUE>>>> >>[((j - 1) % 3) + 1]
+        IN <<"on", tr, m>>]
 
 -----------------------------------------------------------------------------
 VARIABLE t
